@@ -103,6 +103,12 @@ pub fn hash_bytes(h: u8) -> [u8; 20] {
         for x in b.iter_mut().skip(1) {
             *x = 0xee;
         }
+    } else if (0x80..0xf0).contains(&h) {
+        // 0x80..0xf0: torrents in the other shards (shard = h % 16), for programs whose operations span shards
+        b[0] = h;
+        for (i, x) in b.iter_mut().enumerate().skip(1) {
+            *x = h.wrapping_mul(5).wrapping_add(i as u8);
+        }
     } else {
         b[0] = h.wrapping_mul(16);
         for (i, x) in b.iter_mut().enumerate().skip(1) {
